@@ -35,6 +35,39 @@ func isBAField(v ssa.Value) (base ssa.Value, ok bool) {
 	return fa.X, true
 }
 
+// isOwnIndex: base designates the index the enclosing method operates on — its receiver, or the
+// receiver captured by a closure. Lengths of other indexes' plane arrays are not L.
+func isOwnIndex(base ssa.Value) bool {
+	switch bv := base.(type) {
+	case *ssa.Parameter:
+		f := bv.Parent()
+		return f != nil && f.Signature.Recv() != nil && len(f.Params) > 0 && f.Params[0] == bv
+	case *ssa.FreeVar:
+		return true
+	case *ssa.UnOp:
+		if _, isFV := bv.X.(*ssa.FreeVar); isFV {
+			return true
+		}
+		// go/ssa spills a receiver captured by a closure into a cell: `*cell` with the single store `*cell = recv`
+		if al, isAl := bv.X.(*ssa.Alloc); isAl && al.Referrers() != nil {
+			var src ssa.Value
+			n := 0
+			for _, r := range *al.Referrers() {
+				if st, ok := r.(*ssa.Store); ok && st.Addr == al {
+					src = st.Val
+					n++
+				}
+			}
+			if n == 1 {
+				if prm, ok := src.(*ssa.Parameter); ok {
+					return isOwnIndex(prm)
+				}
+			}
+		}
+	}
+	return false
+}
+
 func evalAff(v ssa.Value, depth int) aff {
 	if depth > 8 {
 		return aff{}
@@ -59,26 +92,181 @@ func evalAff(v ssa.Value, depth int) aff {
 		}
 	case *ssa.Call:
 		if bi, ok := x.Call.Value.(*ssa.Builtin); ok && bi.Name() == "len" {
-			if _, ok := isBAField(x.Call.Args[0]); ok {
+			if base, ok := isBAField(x.Call.Args[0]); ok && isOwnIndex(base) {
 				return aff{1, 0, true}
 			}
 			return aff{}
 		}
-		// inline single-expression helpers such as BitCount()
-		if f := x.Call.StaticCallee(); f != nil && len(f.Blocks) == 1 && f.Signature.Results().Len() == 1 {
+		// inline single-expression helpers such as BitCount(), called on the index operated on
+		if f := x.Call.StaticCallee(); f != nil && len(f.Blocks) == 1 && f.Signature.Results().Len() == 1 && f.Signature.Recv() != nil && len(x.Call.Args) > 0 && isOwnIndex(x.Call.Args[0]) {
 			if r, ok := f.Blocks[0].Instrs[len(f.Blocks[0].Instrs)-1].(*ssa.Return); ok {
 				return evalAff(r.Results[0], depth+1)
 			}
 		}
 	case *ssa.Phi:
 		// max idiom: `bits := len(b.bA); if len(o.bA) > bits { bits = len(o.bA) }` never goes below L
-		for _, e := range x.Edges {
-			if a := evalAff(e, depth+1); a.ok && a.a == 1 && a.c == 0 {
-				return a
-			}
+		// (the mirrored min idiom `if w > len(b.bA) { w = len(b.bA) }` can fall below L and is not accepted)
+		if geL(x, map[*ssa.Phi]bool{}, depth) {
+			return aff{1, 0, true}
 		}
 	}
 	return aff{}
+}
+
+// geL proves v >= len(bA) for (possibly loop-carried) maxima: a phi is >= L when every incoming
+// edge either is >= L itself or is taken only under a branch condition `e > w` / `e >= w` with
+// w >= L. Phis on a cycle are assumed (induction over loop iterations).
+func geL(v ssa.Value, assumed map[*ssa.Phi]bool, depth int) bool {
+	if depth > 12 {
+		return false
+	}
+	ph, isPhi := v.(*ssa.Phi)
+	if !isPhi {
+		a := evalAffNoPhi(v, depth+1)
+		return a.ok && a.a == 1 && a.c >= 0
+	}
+	if assumed[ph] {
+		return true
+	}
+	assumed[ph] = true
+	for i, e := range ph.Edges {
+		if geL(e, assumed, depth+1) {
+			continue
+		}
+		// guarded edge: walk single-predecessor jump blocks back to the deciding If
+		blk := ph.Block().Preds[i]
+		succ := ph.Block()
+		for len(blk.Preds) == 1 {
+			if _, isJump := blk.Instrs[len(blk.Instrs)-1].(*ssa.Jump); !isJump {
+				break
+			}
+			succ, blk = blk, blk.Preds[0]
+		}
+		ifi, ok := blk.Instrs[len(blk.Instrs)-1].(*ssa.If)
+		if !ok {
+			return false
+		}
+		cmp, ok := ifi.Cond.(*ssa.BinOp)
+		if !ok {
+			return false
+		}
+		onTrue := blk.Succs[0] == succ
+		if blk.Succs[0] == blk.Succs[1] {
+			return false
+		}
+		var w ssa.Value
+		switch {
+		case onTrue && (cmp.Op == token.GTR || cmp.Op == token.GEQ) && sameReadExpr(cmp.X, e):
+			w = cmp.Y
+		case onTrue && (cmp.Op == token.LSS || cmp.Op == token.LEQ) && sameReadExpr(cmp.Y, e):
+			w = cmp.X
+		case !onTrue && (cmp.Op == token.LSS || cmp.Op == token.LEQ) && sameReadExpr(cmp.X, e):
+			w = cmp.Y
+		case !onTrue && (cmp.Op == token.GTR || cmp.Op == token.GEQ) && sameReadExpr(cmp.Y, e):
+			w = cmp.X
+		}
+		if w == nil || !geL(w, assumed, depth+1) {
+			return false
+		}
+	}
+	return true
+}
+
+// sameReadExpr: a and b are the same value, or two evaluations of the same side-effect-free read
+// expression (go/ssa does no CSE: `if len(x.bA) > n { n = len(x.bA) }` loads twice) with no store
+// or call in the block that re-evaluates it.
+func sameReadExpr(a, b ssa.Value) bool {
+	if a == b {
+		return true
+	}
+	if bi, ok := b.(ssa.Instruction); ok && bi.Block() != nil {
+		for _, ins := range bi.Block().Instrs {
+			switch x := ins.(type) {
+			case *ssa.Store, *ssa.MapUpdate, *ssa.Go, *ssa.Defer, *ssa.Send:
+				return false
+			case *ssa.Call:
+				if _, isB := x.Call.Value.(*ssa.Builtin); !isB {
+					if _, ok := lenBAOf(x); !ok {
+						return false
+					}
+				}
+			}
+		}
+	}
+	var eq func(a, b ssa.Value, d int) bool
+	eq = func(a, b ssa.Value, d int) bool {
+		if a == b {
+			return true
+		}
+		if d > 8 {
+			return false
+		}
+		if ba, ok := lenBAOf(a); ok {
+			if bb, ok := lenBAOf(b); ok {
+				return eq(ba, bb, d+1)
+			}
+		}
+		switch x := a.(type) {
+		case *ssa.Const:
+			y, ok := b.(*ssa.Const)
+			return ok && x.Value != nil && y.Value != nil && x.Value.ExactString() == y.Value.ExactString()
+		case *ssa.Call:
+			y, ok := b.(*ssa.Call)
+			if !ok {
+				return false
+			}
+			bx, ok1 := x.Call.Value.(*ssa.Builtin)
+			by, ok2 := y.Call.Value.(*ssa.Builtin)
+			return ok1 && ok2 && bx.Name() == "len" && by.Name() == "len" && eq(x.Call.Args[0], y.Call.Args[0], d+1)
+		case *ssa.UnOp:
+			y, ok := b.(*ssa.UnOp)
+			return ok && x.Op == y.Op && eq(x.X, y.X, d+1)
+		case *ssa.FieldAddr:
+			y, ok := b.(*ssa.FieldAddr)
+			return ok && x.Field == y.Field && eq(x.X, y.X, d+1)
+		case *ssa.IndexAddr:
+			y, ok := b.(*ssa.IndexAddr)
+			return ok && eq(x.X, y.X, d+1) && eq(x.Index, y.Index, d+1)
+		case *ssa.Convert:
+			y, ok := b.(*ssa.Convert)
+			return ok && eq(x.X, y.X, d+1)
+		}
+		return false
+	}
+	return eq(a, b, 0)
+}
+
+// lenBAOf: v is len(base.bA), written out or through a one-line accessor such as BitCount().
+func lenBAOf(v ssa.Value) (ssa.Value, bool) {
+	c, ok := v.(*ssa.Call)
+	if !ok {
+		return nil, false
+	}
+	if bi, ok := c.Call.Value.(*ssa.Builtin); ok {
+		if bi.Name() == "len" {
+			return isBAField(c.Call.Args[0])
+		}
+		return nil, false
+	}
+	f := c.Call.StaticCallee()
+	if f == nil || len(f.Blocks) != 1 || f.Signature.Recv() == nil || len(c.Call.Args) == 0 {
+		return nil, false
+	}
+	r, ok := f.Blocks[0].Instrs[len(f.Blocks[0].Instrs)-1].(*ssa.Return)
+	if !ok || len(r.Results) != 1 {
+		return nil, false
+	}
+	if base, ok := lenBAOf(r.Results[0]); ok && base == ssa.Value(f.Params[0]) {
+		return c.Call.Args[0], true
+	}
+	return nil, false
+}
+
+func evalAffNoPhi(v ssa.Value, depth int) aff {
+	if _, isPhi := v.(*ssa.Phi); isPhi {
+		return aff{}
+	}
+	return evalAff(v, depth)
 }
 
 type planeLoop struct {
@@ -135,6 +323,12 @@ func planeLoops(p *Prog, f *ssa.Function) []planeLoop {
 			var bound aff
 			incl := false
 			found := false
+			type cond struct {
+				blk   *ssa.BasicBlock
+				bound aff
+				incl  bool
+			}
+			var conds []cond
 			for _, b2 := range f.Blocks {
 				if len(b2.Instrs) == 0 {
 					continue
@@ -155,14 +349,39 @@ func planeLoops(p *Prog, f *ssa.Function) []planeLoop {
 				}
 				switch cmp.Op {
 				case token.LSS:
-					bound, found = evalAff(cmp.Y, 0), true
+					conds = append(conds, cond{b2, evalAff(cmp.Y, 0), false})
+					found = true
 				case token.LEQ:
-					bound, incl, found = evalAff(cmp.Y, 0), true, true
+					conds = append(conds, cond{b2, evalAff(cmp.Y, 0), true})
+					found = true
 				case token.GEQ, token.GTR:
 					if desc {
 						found = true
 					}
 				}
+			}
+			// the loop header's own condition(s): `i < A`, `i < A || i < B` (continues while either holds:
+			// any bound that covers suffices) or `i < A && i < B` (stops at the smaller: both must cover).
+			var hdr []cond
+			for _, c := range conds {
+				if c.blk == ph.Block() || (len(c.blk.Preds) == 1 && c.blk.Preds[0] == ph.Block()) {
+					hdr = append(hdr, c)
+				}
+			}
+			switch {
+			case len(hdr) == 1:
+				bound, incl = hdr[0].bound, hdr[0].incl
+			case len(hdr) == 2 && hdr[1].blk == hdr[0].blk.Succs[1]: // ||
+				bound, incl = hdr[0].bound, hdr[0].incl
+				if !bound.ok {
+					bound, incl = hdr[1].bound, hdr[1].incl
+				}
+			case len(hdr) == 2 && hdr[1].blk == hdr[0].blk.Succs[0]: // &&
+				if hdr[0].bound.ok && hdr[1].bound.ok {
+					bound, incl = hdr[0].bound, hdr[0].incl
+				}
+			case len(hdr) == 0 && len(conds) > 0:
+				bound, incl = conds[len(conds)-1].bound, conds[len(conds)-1].incl
 			}
 			if !found {
 				continue
@@ -271,7 +490,14 @@ var wholeIndexOps = []string{
 	"(*roaring64.BSI).GetSizeInBytes",
 	"(*BitSliceIndexing.BSI).NewBSIRetainSet", "(*BitSliceIndexing.BSI).ClearValues", "(*BitSliceIndexing.BSI).ParOr",
 	"(*BitSliceIndexing.BSI).MarshalBinary", "(*BitSliceIndexing.BSI).RunOptimize",
+	// overwriting a column must write (set or clear) every plane, or the old high bits survive
+	"(*roaring64.BSI).SetBigValue", "(*roaring64.BSI).SetBigMany",
+	"(*BitSliceIndexing.BSI).SetValue", "(*BitSliceIndexing.BSI).SetMany",
 }
+
+// wideningOps grow bA on demand; existing negative values must be sign-extended into every new
+// plane up to and including the new top plane (DESIGN §3.8 PC2).
+var wideningOps = []string{"(*roaring64.BSI).SetBigValue", "(*roaring64.BSI).SetBigMany"}
 
 func rulePC1(p *Prog) *RuleResult {
 	res := newResult("PC1", ruleDoc["PC1"], 10)
@@ -333,6 +559,131 @@ func rulePC1(p *Prog) *RuleResult {
 			default:
 				res.bad(c, p.ipos(l.pos), fmt.Sprintf("the loop visits %s but the index has len(bA) planes: %s", desc, strings.TrimSpace("the plane(s) outside that interval (the sign plane in roaring64) are skipped")))
 			}
+		}
+	}
+	return res
+}
+
+func init() {
+	register("PC2", "sign extension on widening: when the 64-bit BSI grows bA, the loop that copies the old sign plane covers every new plane [old len(bA), new len(bA)) including the new top plane", rulePC2)
+}
+
+// affLoad evaluates v as a*len(bA)+c and returns the loads of bA it is built from.
+func affLoads(v ssa.Value, depth int, out *[]*ssa.UnOp) {
+	if depth > 8 {
+		return
+	}
+	switch x := v.(type) {
+	case *ssa.Convert:
+		affLoads(x.X, depth+1, out)
+	case *ssa.BinOp:
+		affLoads(x.X, depth+1, out)
+		affLoads(x.Y, depth+1, out)
+	case *ssa.Call:
+		if bi, ok := x.Call.Value.(*ssa.Builtin); ok && bi.Name() == "len" {
+			if _, ok := isBAField(x.Call.Args[0]); ok {
+				*out = append(*out, x.Call.Args[0].(*ssa.UnOp))
+			}
+		}
+	}
+}
+
+func rulePC2(p *Prog) *RuleResult {
+	res := newResult("PC2", ruleDoc["PC2"], 2)
+	for _, name := range wideningOps {
+		f := p.Func(name)
+		if f == nil {
+			res.undecided(name, "-", "anchor not found")
+			continue
+		}
+		// stores that grow the plane array
+		var grow []*ssa.BasicBlock
+		for _, b := range f.Blocks {
+			for _, ins := range b.Instrs {
+				if st, ok := ins.(*ssa.Store); ok {
+					if fa, ok := st.Addr.(*ssa.FieldAddr); ok && strings.HasSuffix(fieldName(fa.X.Type(), fa.Field), ".bA") {
+						grow = append(grow, b)
+					}
+				}
+			}
+		}
+		if len(grow) == 0 {
+			res.undecided(name+"|growth", p.pos(f.Pos()), "no store to bA: the widening code moved, re-anchor the rule")
+			continue
+		}
+		afterGrowth := func(ld *ssa.UnOp) bool {
+			for _, g := range grow {
+				if blockReaches(ld.Block(), g) {
+					return false
+				}
+			}
+			return true
+		}
+		n := 0
+		for _, b := range f.Blocks {
+			for _, ins := range b.Instrs {
+				ph, ok := ins.(*ssa.Phi)
+				if !ok || len(ph.Edges) != 2 {
+					continue
+				}
+				var start ssa.Value
+				var step *ssa.BinOp
+				for i, e := range ph.Edges {
+					if bo, isB := ph.Edges[1-i].(*ssa.BinOp); isB && bo.Op == token.ADD && isConstInt(bo.Y, 1) && bo.X == ssa.Value(ph) {
+						if _, isC := constIntVal(e); !isC {
+							start, step = e, bo
+						}
+					}
+				}
+				if step == nil || len(planeIndexUses(p, f, ph)) == 0 {
+					continue
+				}
+				n++
+				c := fmt.Sprintf("%s|sign-extension loop#%d", name, n)
+				sa := evalAff(start, 0)
+				var sl []*ssa.UnOp
+				affLoads(start, 0, &sl)
+				startOK := sa.ok && sa.a == 1 && sa.c == 0 && len(sl) == 1 && !afterGrowth(sl[0])
+				// bound
+				var bound ssa.Value
+				incl := false
+				for _, b2 := range f.Blocks {
+					if ifi, ok := b2.Instrs[len(b2.Instrs)-1].(*ssa.If); ok {
+						if cmp, ok := ifi.Cond.(*ssa.BinOp); ok && cmp.X == ssa.Value(ph) {
+							switch cmp.Op {
+							case token.LSS:
+								bound = cmp.Y
+							case token.LEQ:
+								bound, incl = cmp.Y, true
+							}
+						}
+					}
+				}
+				if bound == nil {
+					res.undecided(c, p.ipos(ph), "loop condition not recognised")
+					continue
+				}
+				ba := evalAff(bound, 0)
+				if incl {
+					ba.c++
+				}
+				var bl []*ssa.UnOp
+				affLoads(bound, 0, &bl)
+				boundOK := ba.ok && ba.a == 1 && ba.c == 0 && len(bl) == 1 && afterGrowth(bl[0])
+				switch {
+				case !sa.ok || !ba.ok:
+					res.undecided(c, p.ipos(ph), "start or bound is not an affine expression of len(bA)")
+				case !startOK:
+					res.bad(c, p.ipos(ph), fmt.Sprintf("the loop starts at %s (of the array before growth: %v): new planes below it are not sign-extended", affString(sa), len(sl) == 1 && !afterGrowth(sl[0])))
+				case !boundOK:
+					res.bad(c, p.ipos(ph), fmt.Sprintf("the loop stops before %s of the grown array: the new top (sign) plane is not filled, existing negative values become positive", affString(ba)))
+				default:
+					res.ok(c, p.ipos(ph), "planes [old len(bA), new len(bA))")
+				}
+			}
+		}
+		if n == 0 {
+			res.undecided(name+"|sign-extension", p.pos(f.Pos()), "no sign-extension loop found in a widening operation")
 		}
 	}
 	return res
